@@ -58,6 +58,15 @@ def gen_cases(ctx):
                     feeds_a.insert(r.randint(1, depth - 1), ("r", 0))
                 cases.append(Case("A_%s_p%d_%d" % (ind, p, j), [new_op(0, ind, pr)] + feeds_a,
                                   meta={"ind": ind, "p": p, "fam": "A", "n": depth}))
+    # family T: tie-rich sequences over a three-symbol alphabet (repeated extremes entering and leaving the window in every order)
+    for ind in KINDS7:
+        for p in range(1, 6):
+            for j in range(12 if ind in ("MIN", "MAX") else 4):
+                al = r.choice([[0.0, 1.0, 5.0], [1.0, 5.0, 7.0], [-1.0, 0.0, 1.0], [2.0, 2.0, 3.0]])
+                seq = [r.choice(al) for _ in range(12)]
+                pr = (p, 0, 0, 2.0 if ind == "BB" else 0.0)
+                cases.append(Case("T_%s_p%d_%d" % (ind, p, j), [new_op(0, ind, pr)] + [("n", 0, x) for x in seq],
+                                  meta={"ind": ind, "p": p, "fam": "T", "n": 12}))
     # family B
     nb = 3 if not ctx.thorough else 12
     for ind in KINDS7:
